@@ -1,5 +1,7 @@
-"""One-off scaffold: prints lean/ImathVerif/Lemmas/C11Tables.lean (dispatch of the per-order extracted
-definitions over the inductive `Euler.Ord`).  The output is committed and maintained by hand afterwards."""
+"""Generator of lean/ImathVerif/Lemmas/C11Tables.lean (dispatch of the per-order extracted definitions over the inductive
+`Euler.Ord`): `python3 tools/scaffold/c11_tables.py > lean/ImathVerif/Lemmas/C11Tables.lean`.  tools/props/c11.py re-runs it on
+every check and requires the committed file to be byte-identical (obligation `tables:unchanged`), so every row
+`| .X => Gen.Euler.<member>_X` names the definition of the SAME order by construction."""
 ORD = "XYZ XZY YZX YXZ ZXY ZYX XZX XYX YXY YZY ZYZ ZXZ XYZr XZYr YZXr YXZr ZXYr ZYXr XZXr XYXr YXYr YZYr ZYZr ZXZr".split()
 # (table name, Gen stem, binders, args, result type)
 T = [
@@ -17,12 +19,18 @@ T = [
  ("setXYZ", "setXYZVector", "(a v : V3 α)", "a v", "V3 α"),
  ("toXYZ", "toXYZVector", "(a : V3 α)", "a", "V3 α"),
  ("setOrderKeeps", "setOrderKeepsAngles", "(a : V3 α)", "a", "V3 α × Int"),
- ("copyAssign", "copyAndAssign", "(a v : V3 α)", "a v", "V3 α × Int × V3 α × Int × V3 α × Int"),
  ("reorderFromXYZ", "reorderFromXYZ", "(sqrt sin cos : α → α) (atan2 : α → α → α) (a : V3 α)", "sqrt sin cos atan2 a", "V3 α × Int"),
  ("reorderToZYXr", "reorderToZYXr", "(sqrt sin cos : α → α) (atan2 : α → α → α) (a : V3 α)", "sqrt sin cos atan2 a", "V3 α × Int"),
  ("nearest", "nearestRotation", "(angleMod : α → α) (xyzRot target : V3 α)", "angleMod xyzRot target", "V3 α"),
  ("makeNear", "makeNear", "(angleMod : α → α) (a t : V3 α)", "angleMod a t", "V3 α × Int"),
+ ("copyAssign", "copyAndAssign", "(a v : V3 α)", "a v", "V3 α × Int × V3 α × Int × V3 α × Int"),
+ # makeNear with a target of ANOTHER order (converted by the re-ordering constructor); the same-order row takes the other branch of
+ # `if (order () != target.order ())` and therefore reads no sqrt/sin/cos/atan2
+ ("makeNearZYXr", "makeNearFromZYXr", "(sqrt sin cos : α → α) (atan2 : α → α → α) (angleMod : α → α) (a t : V3 α)", "sqrt sin cos atan2 angleMod a t", "V3 α × Int"),
+ ("makeNearXYZ", "makeNearFromXYZ", "(sqrt sin cos : α → α) (atan2 : α → α → α) (angleMod : α → α) (a t : V3 α)", "sqrt sin cos atan2 angleMod a t", "V3 α × Int"),
 ]
+# rows whose extracted definition has fewer parameters
+ARGS = {("makeNearZYXr", "ZYXr"): "angleMod a t", ("makeNearXYZ", "XYZ"): "angleMod a t"}
 out = []
 out.append("""import ImathVerif.Spec.EulerSpec
 import ImathVerif.Gen.C11Euler
@@ -38,10 +46,10 @@ namespace ImathVerif.Euler
 open ImathVerif
 """)
 for (t, g, b, args, ty) in T:
-    lt = "[Field α] [LinearOrder α]" if t in ("nearest", "makeNear") else "[Field α]"
+    lt = "[Field α] [LinearOrder α]" if t in ("nearest", "makeNear", "makeNearZYXr", "makeNearXYZ") else "[Field α]"
     out.append("def %s {α : Type} %s (o : Ord) %s : %s :=\n  match o with" % (t, lt, b, ty))
     for o in ORD:
-        out.append("  | .%s => Gen.Euler.%s_%s %s" % (o, g, o, args))
+        out.append("  | .%s => Gen.Euler.%s_%s %s" % (o, g, o, ARGS.get((t, o), args)))
     out.append("")
 for (t, g, ty) in [("angleOrderG", "angleOrder", "Int × Int × Int"), ("angleMappingG", "angleMapping", "Int × Int × Int"),
                    ("orderG", "order", "Int × Bool × Bool × Bool × Bool × Int")]:
